@@ -15,6 +15,7 @@ import (
 	"os"
 	"path/filepath"
 	"runtime"
+	"strings"
 	"sync"
 	"testing"
 	"time"
@@ -112,17 +113,30 @@ func (r *v12FSMRun) applyAll(o map[string]interface{}, obs *v12Obs, deleted stri
 	}
 }
 
+// v12CountSD counts the goroutines started by metadataAPI.removeStream that
+// still exist (parked at the gate or running), by their stack.
+func v12CountSD() int {
+	buf := make([]byte, 1<<20)
+	for {
+		n := runtime.Stack(buf, true)
+		if n < len(buf) {
+			return strings.Count(string(buf[:n]), "metadataAPI).removeStream.func")
+		}
+		buf = make([]byte, 2*len(buf))
+	}
+}
+
 // release lets one parked announcement run and waits until its goroutine is gone
 func (r *v12FSMRun) release(p v12Parked) {
-	n := runtime.NumGoroutine()
+	n := v12CountSD()
 	close(p.ch)
 	deadline := time.Now().Add(20 * time.Second)
-	for runtime.NumGoroutine() >= n {
+	for v12CountSD() >= n {
 		if time.Now().After(deadline) {
 			r.infra = "released StreamDeleted goroutine did not finish"
 			return
 		}
-		time.Sleep(50 * time.Microsecond)
+		time.Sleep(20 * time.Microsecond)
 	}
 }
 
